@@ -127,3 +127,22 @@ func ZZ_C24_sorted() {
 		}
 	}
 }
+
+// ZZ_C24_history: the choice for a height depends on the chain it is computed
+// on, not on what this node computed before: after the block below that height
+// was replaced (reorganisation), the node's choice equals the choice of a node
+// that only ever saw the new chain.
+func ZZ_C24_history() {
+	nonceA, nonceB := nd.U32("orphanedBlockNonce"), nd.U32("newBlockNonce")
+	voted := 8 + nd.Choose("votedProducers", 4)
+	a := zzC24arbiters(nonceA)
+	_, errA := a.getCandidateIndexAtRandom(100, 0, voted)
+	newBlk := &types.Block{Header: common2.Header{Version: 1, Nonce: nonceB, Height: 99}}
+	a.getBlockByHeight = func(uint32) (*types.Block, error) { return newBlk, nil }
+	i2, err2 := a.getCandidateIndexAtRandom(100, 0, voted)
+	fresh := zzC24arbiters(nonceB)
+	i3, err3 := fresh.getCandidateIndexAtRandom(100, 0, voted)
+	nd.Reach("evaluated")
+	nd.Assert(errA == nil && err2 == nil && err3 == nil, "choices_are_made")
+	nd.Assert(i2 == i3, "choice_after_a_reorganisation_equals_the_choice_of_a_fresh_node")
+}
